@@ -8,8 +8,10 @@
 package main
 
 import (
+	"bytes"
 	"fmt"
 	"os"
+	"os/exec"
 	"path/filepath"
 	"reflect"
 	"runtime"
@@ -248,10 +250,57 @@ func main() {
 		}
 	}
 	accepted := 0
+	// the formatter as users run it: cmd/mfmt built from the tree under test, printing to stdout and with -write
+	scratch := os.Getenv("VERIF_SCRATCH")
+	if scratch == "" {
+		scratch = os.TempDir()
+	}
+	mfmt := filepath.Join(scratch, "mfmt.bin")
+	{
+		b := exec.Command("go", "build", "-o", mfmt, "./cmd/mfmt")
+		b.Dir = repo
+		if out, err := b.CombinedOutput(); err != nil {
+			fmt.Printf("ENGINE-ERROR cannot build cmd/mfmt: %v\n%s\n", err, out)
+			os.Exit(2)
+		}
+	}
+	viaCommand := func(w, i int, src string) (stdout, written string, err error) {
+		f := filepath.Join(scratch, fmt.Sprintf("mfmt.%d.mtail", w))
+		if err := os.WriteFile(f, []byte(src), 0o644); err != nil {
+			return "", "", err
+		}
+		var so, se bytes.Buffer
+		cmd := exec.Command(mfmt, "-prog", f, "-logtostderr")
+		cmd.Stdout, cmd.Stderr = &so, &se
+		if err := cmd.Run(); err != nil {
+			return "", "", fmt.Errorf("mfmt: %v: %s", err, se.String())
+		}
+		cmd = exec.Command(mfmt, "-prog", f, "-write", "-logtostderr")
+		se.Reset()
+		cmd.Stderr = &se
+		if err := cmd.Run(); err != nil {
+			return "", "", fmt.Errorf("mfmt -write: %v: %s", err, se.String())
+		}
+		b, _ := os.ReadFile(f)
+		return so.String(), string(b), nil
+	}
 	vlib.ParallelW(len(items), runtime.NumCPU(), func(w, i int) {
 		it := items[i]
 		rep := map[string]string{"family": it.family, "program": it.src}
 		t1, ok, prob := format(it.src)
+		// (a process per program is slow: every program with a '%' — the one character a careless print
+		// treats specially — and every 16th of the rest)
+		if ok && prob == "" && (strings.Contains(it.src, "%") || i%16 == 0) {
+			so, wr, err := viaCommand(w, i, it.src)
+			switch {
+			case err != nil:
+				c.Report("mfmt-failed "+it.family+": "+it.ident, fmt.Sprintf("program:\n%s\nthe checker accepts it but the mfmt command fails: %v", it.src, err), rep)
+			case so != t1:
+				c.Report("mfmt-stdout-differs "+it.family+": "+it.ident, fmt.Sprintf("program:\n%s\nmfmt prints:\n%s\nthe formatter produced:\n%s", it.src, so, t1), rep)
+			case wr != t1:
+				c.Report("mfmt-write-differs "+it.family+": "+it.ident, fmt.Sprintf("program:\n%s\nmfmt -write left in the file:\n%s\nthe formatter produced:\n%s", it.src, wr, t1), rep)
+			}
+		}
 		if prob != "" {
 			c.Report("format-panic "+it.family+": "+it.ident, "program:\n"+it.src+"\n"+prob, rep)
 			return
@@ -290,5 +339,5 @@ func main() {
 	})
 	c.Set("programs", len(items))
 	c.Assume = []string{"syntax trees are compared structurally by reflection over every exported field of the ast package's node types except positions, symbols, scopes, inferred types and the l-value flag"}
-	c.Finish("every checker-accepted program among: the typed families of C01; a format family (every declaration kind x hidden x as-renaming x 0-2 keys x limit x bucket lists incl. 1e-7 and 1e9 boundaries; string literals over {a, escaped quote, escaped backslash, \\n escape, blank} up to length 3 as values and as index keys; 10 regexes with slashes/escapes as condition, const fragment, match operand and subst argument; every pair of 11 arithmetic/bitwise operators with each explicit parenthesisation and none, against relational and logical operators; del/del-after, multi-key indexing, decorators, else/otherwise/stop, unary ~, small float literals, negative literals, builtins); the example programs: parse -> check -> unparse -> parse gives a structurally equal tree, and formatting the result again gives identical text; distinct_nontrivial = distinct accepted programs")
+	c.Finish("every checker-accepted program among: the typed families of C01; a format family (every declaration kind x hidden x as-renaming x 0-2 keys x limit x bucket lists incl. 1e-7 and 1e9 boundaries; string literals over {a, escaped quote, escaped backslash, \\n escape, blank} up to length 3 as values and as index keys; 10 regexes with slashes/escapes as condition, const fragment, match operand and subst argument; every pair of 11 arithmetic/bitwise operators with each explicit parenthesisation and none, against relational and logical operators; del/del-after, multi-key indexing, decorators, else/otherwise/stop, unary ~, small float literals, negative literals, builtins); the example programs: parse -> check -> unparse -> parse gives a structurally equal tree, and formatting the result again gives identical text; the mfmt command built from the tree prints, and with -write leaves in the file, exactly that text (every program containing '%' and every 16th of the others); distinct_nontrivial = distinct accepted programs")
 }
